@@ -33,6 +33,23 @@ CLAIMS = {
         'calls of those edits on the Coq models.',
    note='Trusted: Coq kernel/vm_compute; translators; CPython ast (OH1); hand models tied by (trace) correspondence; known_findings.json lists one open finding class (arglike positional after keyword).',
    design='DESIGN.md section 4 C01'),
+ 'C12': dict(
+   technique='Coq proof: modification-registry bracket theorem + regenerated call-site obligation; vm_compute correspondence with the real _Modifying; fault-sequence oracle',
+   text='Proved (closed): for every nest of modification blocks with refusals and exceptions anywhere the registry _MODIFYING is observationally restored; from idle it ends idle; '
+        'a refused enter changes nothing; the next edit of any node is admitted; every _modifying call site in the regenerated site list is a with-item or the guarded manual protocol. '
+        'Partial: validate-before-mutate inside handlers is not modelled - decided by fault sequences: 15 kinds of invalid request interleaved with valid edits; after each raising '
+        'call source and ast.dump(include_attributes) must be identical and the registry empty; later edits must re-parse to themselves.',
+   note='Trusted: Coq kernel/vm_compute; py2v/gen_modsites scanner; hand model Registry.v tied to the real class by correspondence; CPython ast.dump as observer. No axioms.',
+   design='DESIGN.md section 4 C12'),
+ 'C20': dict(
+   technique='Coq proof: option-store state machine (purity, atomic rejection, block restore, thread projection) + registry commutation; translated option table / effect order; lock-step thread correspondence; concurrent-vs-alone oracle',
+   text='Proved (closed): reads are pure and per-call options win; invalid requests change nothing; an options() block restores exactly the names it sets (and the whole thread state when '
+        'its body has no bare set_options), on normal and exceptional exit, for any nesting; for EVERY interleaving each thread ends where it would end alone; fresh threads see the '
+        'translated defaults; registry operations on different roots commute; validate-before-update / restore-in-finally hold of the regenerated effect lists. '
+        'Partial (runtime): GIL atomicity and real preemption are exercised, not proved: 8 threads with switch interval 1e-6 vs the same scripts alone.',
+   note='Trusted: Coq kernel/vm_compute; py2v/gen_options; validity of a value is an oracle bit (harness supplies the documented domain and cross-checks the implementation against it); '
+        'hand model Options.v tied by lock-step correspondence over real threads. No axioms.',
+   design='DESIGN.md section 4 C20'),
 }
 
 checks = []
